@@ -6,6 +6,7 @@ import (
 	"math"
 	"math/rand"
 	"regexp"
+	"sort"
 	"strings"
 	"time"
 
@@ -177,6 +178,78 @@ func Run(c *core.Ctx) int {
 		}
 	}
 
+	// (3c) targeted sweeps over what used to be triaged and is repaired: every tax summary
+	// stored in an accepted input (document references of payments, preceding documents) with
+	// its category codes, rates, rate keys and countries damaged in turn, and every extension
+	// value replaced by texts outside the code pattern; whatever GOBL still accepts is judged
+	sweep := func(e example, name string, damage func(target any) bool) {
+		v, err := decode(e.json)
+		if err != nil {
+			return
+		}
+		target := v
+		if e.isEnvelope {
+			if m, ok := v.(map[string]any); ok {
+				if d, ok := m["doc"]; ok {
+					target = d
+				}
+				delete(m, "head")
+				delete(m, "sigs")
+			}
+		}
+		if !damage(target) {
+			return
+		}
+		b, err := json.Marshal(v)
+		if err != nil || seen[string(b)] {
+			return
+		}
+		seen[string(b)] = true
+		kind := strings.SplitN(name, ":", 2)[0]
+		c.Count("targeted:"+kind+":tried", 1)
+		out, _, err := goAccept(b, e.isEnvelope)
+		if err != nil {
+			return
+		}
+		c.Count("targeted:"+kind+":kept", 1)
+		addAccepted(Case{Source: e.path, Mutation: "targeted-" + name, Input: b, IsEnvelope: e.isEnvelope}, out)
+	}
+	for _, e := range accepted {
+		v, err := decode(e.json)
+		if err != nil {
+			continue
+		}
+		nTotals := len(storedTotals(v))
+		for i := 0; i < nTotals; i++ {
+			for _, dm := range totalDamages {
+				i, dm := i, dm
+				sweep(e, "stored-total:"+dm.name, func(t any) bool {
+					ts := storedTotals(t)
+					return i < len(ts) && dm.apply(ts[i])
+				})
+			}
+		}
+		nExt := len(extMembers(v))
+		for i := 0; i < nExt; i++ {
+			for _, bad := range []string{"-0.25", "A B ", "0101 ", strings.Repeat("7", 33), "62\t01"} {
+				i, bad := i, bad
+				sweep(e, "ext-value:"+bad, func(t any) bool {
+					ms := extMembers(t)
+					if i >= len(ms) {
+						return false
+					}
+					ms[i].obj[ms[i].key] = bad
+					return true
+				})
+			}
+		}
+		// identity codes with the characters only the exempt country's rule admits
+		for _, code := range []string{"K&A010301I16", "ÑAB010301I16", "Ñ&A0103019ZZ", "&&&&0103019ZZ"} {
+			code := code
+			sweep(e, "taxid-exempt:"+code, func(t any) bool { return setTaxIDCodesOf(t, "MX", code) > 0 })
+		}
+	}
+
 	// (4) model correspondence on the rejecting side: broken copies of valid outputs,
 	// judged by the Lean model and jsonschema only (GOBL has no say here)
 	nb := c.Pick(1200, 20000)
@@ -206,6 +279,9 @@ func Run(c *core.Ctx) int {
 
 	// (5) leaf values of the registered leaf types that GOBL accepts
 	leafChecks(c, &cases, &checks)
+	// (6) the validators of stored tax summaries, extension values, codes, keys and identity
+	// codes: model correspondence, and what they accept against the published schemas
+	validatorChecks(c, &cases, &checks)
 
 	judge(c, py, cases, checks)
 	printerCorrespondence(c)
@@ -596,7 +672,12 @@ func replay(c *core.Ctx, py *pyPool, rc Case) int {
 			c.TieBroken("drive:C11/replay", "bad leaf value", rc)
 			break
 		}
-		judge(c, py, []Case{rc}, []*check{{caseIdx: 0, id: rc.SchemaID, inst: inst, accepted: true, what: "leaf"}})
+		accepted := true
+		if ok, known := revalidateLeaf(rc.GoType, rc.Value); known && !ok {
+			c.Note("replay: %s.Validate no longer accepts the value; judging it for the model correspondence only", rc.GoType)
+			accepted = false
+		}
+		judge(c, py, []Case{rc}, []*check{{caseIdx: 0, id: rc.SchemaID, inst: inst, accepted: accepted, what: "leaf"}})
 	default:
 		env := []byte(rc.Envelope)
 		acceptedByGo := false
@@ -674,4 +755,163 @@ func setTaxIDCodes(v any, code string) int {
 		}
 	}
 	return n
+}
+
+// setTaxIDCodesOf sets the code of every tax_id object of the given country.
+func setTaxIDCodesOf(v any, country, code string) int {
+	n := 0
+	switch x := v.(type) {
+	case map[string]any:
+		for k, val := range x {
+			if k == "tax_id" {
+				if m, ok := val.(map[string]any); ok {
+					if m["country"] == country {
+						m["code"] = code
+						n++
+					}
+					continue
+				}
+			}
+			n += setTaxIDCodesOf(val, country, code)
+		}
+	case []any:
+		for _, e := range x {
+			n += setTaxIDCodesOf(e, country, code)
+		}
+	}
+	return n
+}
+
+// storedTotals lists, in a fixed order, the tax summaries an input carries along: objects with
+// a `categories` array (the `tax` of document references and of payments; `totals.taxes` is
+// recalculated and therefore left out).
+func storedTotals(v any) []map[string]any {
+	var out []map[string]any
+	var walk func(x any, key string)
+	walk = func(x any, key string) {
+		switch t := x.(type) {
+		case map[string]any:
+			if _, ok := t["categories"].([]any); ok && key != "taxes" {
+				out = append(out, t)
+			}
+			ks := make([]string, 0, len(t))
+			for k := range t {
+				ks = append(ks, k)
+			}
+			sort.Strings(ks)
+			for _, k := range ks {
+				walk(t[k], k)
+			}
+		case []any:
+			for _, e := range t {
+				walk(e, key)
+			}
+		}
+	}
+	walk(v, "")
+	return out
+}
+
+type totalDamage struct {
+	name  string
+	apply func(t map[string]any) bool
+}
+
+func firstCategory(t map[string]any) map[string]any {
+	cs, _ := t["categories"].([]any)
+	if len(cs) == 0 {
+		return nil
+	}
+	c, _ := cs[0].(map[string]any)
+	return c
+}
+
+func firstRate(t map[string]any) map[string]any {
+	c := firstCategory(t)
+	if c == nil {
+		return nil
+	}
+	rs, _ := c["rates"].([]any)
+	if len(rs) == 0 {
+		return nil
+	}
+	r, _ := rs[0].(map[string]any)
+	return r
+}
+
+func setIn(m map[string]any, k string, v any) bool {
+	if m == nil {
+		return false
+	}
+	m[k] = v
+	return true
+}
+
+var totalDamages = []totalDamage{
+	{"code-trailing-space", func(t map[string]any) bool { return setIn(firstCategory(t), "code", "VAT ") }},
+	{"code-malformed", func(t map[string]any) bool { return setIn(firstCategory(t), "code", "c8PbY9.DP6 ") }},
+	{"code-empty", func(t map[string]any) bool { return setIn(firstCategory(t), "code", "") }},
+	{"code-removed", func(t map[string]any) bool {
+		c := firstCategory(t)
+		if c == nil {
+			return false
+		}
+		delete(c, "code")
+		return true
+	}},
+	{"rates-removed", func(t map[string]any) bool {
+		c := firstCategory(t)
+		if c == nil {
+			return false
+		}
+		delete(c, "rates")
+		return true
+	}},
+	{"rates-null", func(t map[string]any) bool { return setIn(firstCategory(t), "rates", nil) }},
+	{"rates-empty", func(t map[string]any) bool { return setIn(firstCategory(t), "rates", []any{}) }},
+	{"rate-key-malformed", func(t map[string]any) bool { return setIn(firstRate(t), "key", "Std Rate") }},
+	{"rate-country-unknown", func(t map[string]any) bool { return setIn(firstRate(t), "country", "ZZ") }},
+}
+
+type extMember struct {
+	obj map[string]any
+	key string
+}
+
+// extMembers lists, in a fixed order, the members of every `ext` object of a document.
+func extMembers(v any) []extMember {
+	var out []extMember
+	var walk func(x any)
+	walk = func(x any) {
+		switch t := x.(type) {
+		case map[string]any:
+			ks := make([]string, 0, len(t))
+			for k := range t {
+				ks = append(ks, k)
+			}
+			sort.Strings(ks)
+			for _, k := range ks {
+				if m, ok := t[k].(map[string]any); ok && k == "ext" {
+					mk := make([]string, 0, len(m))
+					for kk := range m {
+						mk = append(mk, kk)
+					}
+					sort.Strings(mk)
+					for _, kk := range mk {
+						if _, ok := m[kk].(string); ok {
+							out = append(out, extMember{m, kk})
+						}
+					}
+					continue
+				}
+				walk(t[k])
+			}
+		case []any:
+			for _, e := range t {
+				walk(e)
+			}
+		}
+	}
+	walk(v)
+	return out
 }
